@@ -111,6 +111,32 @@ def check(ctx, chart, spec, ct, stage, lines, impl, metas):
                         break
 
 
+def make_combo(rng, chart):
+    """turn a bar chart with several series into the combination chart other producers write (the library itself never
+    does): the last k series move into a c:lineChart on the same axes.  -> True when done"""
+    from pptx.oxml import parse_xml
+
+    cs = chart._chartSpace
+    bars = cs.xpath("//c:plotArea/c:barChart")
+    if len(bars) != 1:
+        return False
+    bar = bars[0]
+    sers = bar.xpath("./c:ser")
+    if len(sers) < 2:
+        return False
+    k = rng.randint(1, len(sers) - 1)
+    ax = "".join('<c:axId val="%s"/>' % a.get("val") for a in bar.xpath("./c:axId"))
+    line = parse_xml('<c:lineChart xmlns:c="http://schemas.openxmlformats.org/drawingml/2006/chart"><c:grouping val="standard"/>'
+                     '<c:varyColors val="0"/><c:marker val="1"/>%s</c:lineChart>' % ax)
+    bar.addnext(line)
+    anchor = line.xpath("./c:marker")[0]
+    for ser in sers[-k:]:
+        for e in ser.xpath("./c:invertIfNegative"):
+            ser.remove(e)
+        anchor.addprevious(ser)
+    return True
+
+
 def correspond(ctx):
     from pptx import Presentation
 
@@ -153,6 +179,9 @@ def correspond(ctx):
                     check(ctx, chart, spec, ct, "replace-same-object", lines, impl, metas)
                 except Exception as e:  # noqa
                     ctx.count("replace-raised(see C07)")
+            if kind == "cat" and len(spec["series"]) <= 8 and rng.random() < 0.4 and make_combo(rng, chart):
+                ctx.count("combination-chart(bar+line)")
+                check(ctx, chart, spec, ct, "combo", lines, impl, metas)
             if rng.random() < 0.8 and spec["series"]:
                 if kind == "cat":
                     spec2, cd2 = lab.gen_cat_data(rng, n_series=(1 if "PIE" in ct.name else rng.choice([1, 2, 5])))
